@@ -26,7 +26,7 @@ const styleColon = "\x1b[4:3mc\x1b[0m"
 const styleColon2 = "\x1b[1m\x1b[38:2::1:2:3md\x1b[0m"
 
 var sigmaC = []string{"a", " ", "\n", styleColon, styleColon2, "b"}
-var sigma9 = []string{"a", " ", "\n", styleA, "字", "\u00a0", "e", "\u0301", "\t"}
+var sigma9 = []string{"a", " ", "\n", styleA, "字", "\u00a0", "e", "\u0301", "\t", "\ufffd"}
 
 type cell = oracle.Cell
 
@@ -514,7 +514,7 @@ func (c *checker) wideOne(in string) (n int64) {
 func main() {
 	r := ev.New("C13", "exploration",
 		"every string of cells over Σ6={a,b,space,newline,styled a,styled space} up to the length bound and over "+
-			"Σ9={a,space,newline,styled a,wide 字,NBSP,e,combining accent,tab} up to a smaller bound and over ΣC={a,b,space,newline,c with a curly underline ESC[4:3m,d with a colon-form colour} one shorter than Σ6, each run through Wrap/DumbWrap/Pad at "+
+			"Σ10={a,space,newline,styled a,wide 字,NBSP,e,combining accent,tab,the replacement character U+FFFD} up to a smaller bound and over ΣC={a,b,space,newline,c with a curly underline ESC[4:3m,d with a colon-form colour} one shorter than Σ6, each run through Wrap/DumbWrap/Pad at "+
 			"widths 1..W (W=5 quick, 7 thorough), Indent with 3 prefixes x includeFirst, Snip at widths 1..4 x heights 1..3 x 2 ellipses, SetLength at 1..W; plus every function at 13 widths around 80, 160, 256, 1000 and 4096 on all strings of length <=2 and 8 long strings; every text of length <=4 over {a,1,2,space} at 12 widths made of the same digits, visited in two orders; "+
 			"distinct_nontrivial counts distinct input strings of length >= 2 that contain whitespace and a visible cell")
 	c := &checker{r}
@@ -549,7 +549,7 @@ func main() {
 				for code := lo; code < hi; code++ {
 					s := build(alpha, code, n)
 					c.one(s, maxWidth)
-					if n >= 2 && strings.ContainsAny(s, " \n") && strings.ContainsAny(s, "abcd字e") {
+					if n >= 2 && strings.ContainsAny(s, " \n") && strings.ContainsAny(s, "abcd字e\ufffd") {
 						nt++
 					}
 				}
